@@ -13,12 +13,15 @@ PathFrom(s, evs) ==
   ELSE LET r == Step(s, Head(evs)) IN
        <<[ev |-> Head(evs), out |-> r.out, acts |-> r.acts, st |-> r.st, view |-> View(r.st)]>> \o PathFrom(r.st, Tail(evs))
 
+(* JSON has no sets: the empty-debt-entry set arrives as a sequence *)
+FixSt(s) == [s EXCEPT !.bz = {s.bz[i] : i \in DOMAIN s.bz}]
+
 (* verdict for one probe *)
 Verdict(p) ==
-  CASE p.kind = "step"   -> Step(p.st, p.ev).out
+  CASE p.kind = "step"   -> Step(FixSt(p.st), p.ev).out
     [] p.kind = "liqstep" ->   \* one recorded liquidation step: state before, state after, action record
-         IF LiqStepOK(p.st, p.st2, p.act) THEN "ok" ELSE "bad"
-    [] p.kind = "liqrun" -> IF LiqRunOK(p.st, p.st2, p.acts) THEN "ok" ELSE "bad"
+         IF LiqStepOK(FixSt(p.st), FixSt(p.st2), p.act) THEN "ok" ELSE "bad"
+    [] p.kind = "liqrun" -> IF LiqRunOK(FixSt(p.st), FixSt(p.st2), p.acts) THEN "ok" ELSE "bad"
     [] p.kind = "path" -> PathFrom([Apply(InitSt(W0), p.scn) EXCEPT !.k = 0], p.events)
     [] OTHER -> "unknown"
 
